@@ -10,6 +10,16 @@ LEGAL = {("VIRTUAL", "RELEASED"), ("VIRTUAL", "SCHEDULED"), ("RELEASED", "SCHEDU
 FINAL = {"COMPLETED", "CANCELLED", "EVICTED"}
 
 
+DOC_PRIO = ["SIMULATOR_START", "TASK_CANCEL", "EVICT_PROFILE", "TASK_FINISHED", "TASK_GRAPH_RELEASE", "TASK_RELEASE",
+            "UPDATE_WORKLOAD", "TASK_PREEMPT", "TASK_MIGRATION", "LOAD_PROFILE", "TASK_PLACEMENT", "SCHEDULER_START",
+            "SCHEDULER_FINISHED", "SIMULATOR_END", "LOG_UTILIZATION"]
+
+
+def ev_key(time, ty, task):
+    """the documented ordering key of an event: time, type priority, task name (only within one type)"""
+    return (time, DOC_PRIO.index(ty), task or "")
+
+
 def graph_info(run):
     info = {}
     for e in run["log"]:
@@ -122,6 +132,14 @@ def mon_c03(run, variance):
             if e[1] != clock or e[4] != clock:
                 bad.append("event %s for %s with time %s handled at clock %s" % (e[2], e[3], e[1], clock))
             in_handler = (e[2], e[3], e[1])
+            # events take effect in key order: nothing still pending at this moment precedes the event being handled
+            k0 = ev_key(e[1], e[2], e[3])
+            for (pt, pty, ptask) in e[5]:
+                kp = ev_key(pt, pty, ptask)
+                if kp[:2] < k0[:2] or (kp[:2] == k0[:2] and ptask and e[3] and kp < k0):
+                    bad.append("event %s(%s)@%s handled while %s(%s)@%s, which precedes it, was pending"
+                               % (e[2], e[3], e[1], pty, ptask, pt))
+                    break
             handler_pool_refused = False
             if e[2] == "TASK_PLACEMENT":
                 tried.setdefault(e[3], []).append(e[1])
